@@ -199,6 +199,10 @@ def _matches(pattern: dict, facts: dict) -> bool:
     if not pattern:
         return False
     for k, v in pattern.items():
+        if k == 'has_feature':
+            if v not in facts.get('features', []):
+                return False
+            continue
         if k not in facts:
             return False
         fv = facts[k]
